@@ -182,3 +182,9 @@ for _d, _tier in [("2x2", "quick"), ("sym", "thorough")]:
     K("gr.ag.without_tracker_" + _d, ["C13", "C01"], "jxl-grid", GR_LIB, GR_LIBM, "ag_without_tracker_i16_" + _d, _ag_b(_d),
       ["AlignedGrid::with_alloc_tracker", "AlignedGrid::try_clone", "AlignedGrid::empty"], "no tracker: never refused, no handle; clones of untracked grids are untracked and cannot fail",
       tier=_tier, timeout=300 if _tier == "quick" else 1200)
+
+# arithmetic overflow inside the raw-pointer subgrid geometry counts as a C02 failure (it wraps in optimised builds and the
+# wrapped sizes/offsets feed pointer arithmetic); the documented API asserts (`assert!(x <= self.width)` ...) still do not
+for _o in OBLIGATIONS:
+    if _o["id"].startswith(("gr.ms.", "gr.ss.", "gr.ag.accessors")):
+        _o["c02_overflow"] = True
